@@ -23,6 +23,7 @@ var (
 	fShard    = flag.Int("vshard", 0, "shard index")
 	fShards   = flag.Int("vshards", 1, "number of shards")
 	fSeed     = flag.Uint64("vseed", 1, "derived seed (recorded in violations)")
+	fDoc      = flag.String("vdoc", "", "document file (TestTraceOf, child process of C15)")
 	fSurvey   = flag.Bool("vsurvey", false, "record violations without stopping (development aid: lists every signature of a campaign)")
 	fExh      = flag.Bool("vexhaustive", false, "run the exhaustive enumeration instead of the random campaign")
 )
@@ -263,4 +264,12 @@ func TestInfo(t *testing.T) {
 		"fuzz_targets": FuzzTargets[p.ID], "case_timeout_s": p.CaseTimeout.Seconds(),
 	})
 	fmt.Printf("INFO %s\n", b)
+}
+
+// TestTraceOf renders one document and prints the digest of its backend trace (child process of C15).
+func TestTraceOf(t *testing.T) {
+	if *fDoc == "" {
+		t.Skip("no document")
+	}
+	c15TraceOf(t, *fDoc)
 }
